@@ -90,7 +90,7 @@ func (rt *Runtime) buildUnder(w *World, cfg string, format string, e *Env07) c07
 	if e.Relocate {
 		// same tree, other place: a second root materialised in reverse order
 		alt := *rt
-		alt.Root = rt.Root + "-relocated"
+		alt.Root = rt.relocatedRoot()
 		if _, err := os.Stat(alt.Root); err != nil {
 			if err := MaterializeOrder(alt.Root, w.Tree, true); err != nil {
 				out.err = err
@@ -141,6 +141,19 @@ func (rt *Runtime) buildUnder(w *World, cfg string, format string, e *Env07) c07
 		}
 	})
 	return out
+}
+
+// relocatedRoot: where the second copy of the source tree lives - on another
+// file system than the first (the disk under /tmp instead of the tmpfs under
+// /dev/shm) when there is one, so that block counts, directory sizes, device
+// numbers and readdir order all differ between the two copies.
+func (rt *Runtime) relocatedRoot() string {
+	base := filepath.Join(os.TempDir(), "verif-reloc")
+	if os.MkdirAll(base, 0o755) != nil {
+		return rt.Root + "-relocated"
+	}
+	tag := strings.NewReplacer("/", "_").Replace(strings.TrimPrefix(rt.Root, "/dev/shm/"))
+	return filepath.Join(base, tag)
 }
 
 var zoneCache = map[int]*time.Location{}
@@ -303,8 +316,8 @@ func RunC07(rt *Runtime, sc *Scenario) RunResult {
 		return res
 	}
 	rt.SetEnv(w.Env)
-	os.RemoveAll(rt.Root + "-relocated")
-	defer os.RemoveAll(rt.Root + "-relocated")
+	os.RemoveAll(rt.relocatedRoot())
+	defer os.RemoveAll(rt.relocatedRoot())
 	seen := map[string]bool{}
 	violate := func(v Violation) {
 		v.Property = "C07"
